@@ -186,6 +186,10 @@ func doCast(result interface{}, tInfo string) (interface{}, ast.DType) {
 		return conv.ToBool(result), ast.Bool
 
 	case "int":
+		if v, ok := result.(int64); ok {
+			// already an integer: do not round-trip through float64
+			return v, ast.Int
+		}
 		return conv.ToInt64(conv.ToFloat64(result)), ast.Int
 
 	case "float":
